@@ -1,6 +1,7 @@
 # E2: symbolic interpreter over LLVM IR text (concrete control/pointers, symbolic data over R/Z via z3).
 # fpmode 'real': doubles are exact rationals / z3 Reals.  fpmode 'float': doubles are Python floats (IEEE) for
 # encoder validation against native execution (no symbolic data allowed in that mode).
+import os
 import sys, math, time, re
 from fractions import Fraction
 import z3
@@ -624,6 +625,7 @@ class Interp:
                             if ins.res: env[ins.res] = r
                             nxt = ins.normal
                         except Thrown as t:
+                            if os.environ.get('VERIF_TRACE_THROW'): print('  [throw] caught in %s (callee %s)' % (fname[-60:], cname[-70:]), flush=True)
                             s.cur_exn = t.exn; nxt = ins.unwind
                         break
                 elif op == 'br':
